@@ -9,14 +9,14 @@ hdr = open(header).read()
 script = hdr + "\nSet Printing Width 110.\nSet Printing Depth 1000.\n"
 for it in items:
     src = it.split("=")[-1]
-    script += 'Check %s.\n' % src
+    script += 'Check @%s.\n' % src
 p = subprocess.run(["coqtop", "-Q", ".", "MC", "-quiet"], input=script, cwd=COQ, capture_output=True, text=True)
 out = p.stdout
 # split outputs per Check: each starts with "name\n     : type" 
 chunks = re.split(r"\n(?=\S+\n\s+: )", "\n" + out)
 stmts = {}
 for ch in chunks:
-    m = re.match(r"\s*(\S+)\n\s+: (.*)", ch, re.S)
+    m = re.match(r"\s*@?(\S+)\n\s+: (.*)", ch, re.S)
     if m:
         stmts[m.group(1)] = re.sub(r"\n\s*Coq <.*", "", m.group(2), flags=re.S).strip()
 body = hdr + "\n"
@@ -30,5 +30,5 @@ for it in items:
     if st is None:
         sys.stderr.write("no statement for %s\n%s\n" % (src, out[-2000:]))
         sys.exit(1)
-    body += "Theorem %s :\n  %s.\nProof. exact %s. Qed.\nPrint Assumptions %s.\n\n" % (new, st.replace("\n", "\n  "), src, new)
+    body += "Theorem %s :\n  %s.\nProof. exact (@%s). Qed.\nPrint Assumptions %s.\n\n" % (new, st.replace("\n", "\n  "), src, new)
 sys.stdout.write(body)
